@@ -274,7 +274,36 @@ Inductive op :=
 | OWinUpd (sid inc : Z)
 | OConnErr
 | OCancel (sid : Z)
-| OSleep (ms : Z).
+| OSleep (ms : Z)
+| OPadData (sid dlen plen : Z) (ended : bool)   (* DATA with the PADDED flag: 1 + dlen + plen bytes *)
+| OSettings (id val : Z).                       (* SETTINGS with one setting (or an ack) *)
+
+(* s.fc.onRead(n) on (pendingData, pendingUpdate); delta is 0 with a static window *)
+Definition on_read (pd pu n : Z) : Z * Z :=
+  if pd =? 0 then (pd, pu)
+  else let pu1 := pu + n in (pd - n, if stream_limit / 4 <=? pu1 then 0 else pu1).
+
+(* handleData for a frame whose FrameHeader.Length is [size], of which [dlen] bytes are data; the
+   pad-length byte and the padding of a PADDED frame (size - dlen bytes) count against the
+   stream's window and are "read" at once *)
+Definition data_step (c : conn) (sid size dlen : Z) (padded ended : bool) : conn * list ev4 :=
+  match find_active sid (k_streams c) with
+  | None => (c, [])
+  | Some s =>
+    let pd := x_pd s + size in
+    if (0 <? size) && (stream_limit <? pd + x_pu s) then close_one c sid C_INTERNAL false (Some E_FLOW)
+    else if negb (x_ng s =? -1) then
+      let nb := x_nb s + Z.min dlen (1024 - x_nb s) in
+      if (1024 <=? nb) || ended then close_one c sid (x_ng s) false (Some E_PROTOCOL)
+      else
+        (* s.fc.onRead(size) *)
+        let '(pd', pu') := on_read pd (x_pu s) size in
+        (with_streams c (update sid (set_fc nb pd' pu') (k_streams c)), [])
+    else
+      let '(pd', pu') := if padded then on_read pd (x_pu s) (size - dlen) else (pd, x_pu s) in
+      if ended then close_one c sid C_INTERNAL false (Some E_NO)
+      else (with_streams c (update sid (set_fc (x_nb s) pd' pu') (k_streams c)), [])
+  end.
 
 Definition exec_op (c : conn) (o : op) : conn * list ev4 :=
   match o with
@@ -295,24 +324,12 @@ Definition exec_op (c : conn) (o : op) : conn * list ev4 :=
            | HClose code rst => close_one c sid code false (Some rst)
            end
     end
-  | OData sid size ended =>
-    match find_active sid (k_streams c) with
-    | None => (c, [])
-    | Some s =>
-      let pd := x_pd s + size in
-      if (0 <? size) && (stream_limit <? pd + x_pu s) then close_one c sid C_INTERNAL false (Some E_FLOW)
-      else if negb (x_ng s =? -1) then
-        let nb := x_nb s + Z.min size (1024 - x_nb s) in
-        if (1024 <=? nb) || ended then close_one c sid (x_ng s) false (Some E_PROTOCOL)
-        else
-          (* s.fc.onRead(size) *)
-          let '(pd', pu') := if pd =? 0 then (pd, x_pu s)
-                             else let pu1 := x_pu s + size in
-                                  (pd - size, if stream_limit / 4 <=? pu1 then 0 else pu1) in
-          (with_streams c (update sid (set_fc nb pd' pu') (k_streams c)), [])
-      else if ended then close_one c sid C_INTERNAL false (Some E_NO)
-      else (with_streams c (update sid (set_fc (x_nb s) pd (x_pu s)) (k_streams c)), [])
-    end
+  | OData sid size ended => data_step c sid size size false ended
+  | OPadData sid dlen plen ended => data_step c sid (1 + dlen + plen) dlen true ended
+  | OSettings id val =>
+    (* x/net's parseSettingsFrame: INITIAL_WINDOW_SIZE above 2^31-1 is a connection error; every
+       other setting (and an ack) leaves the terminal-status machine alone *)
+    if (id =? 4) && (2147483647 <? val) then close_conn c else (c, [])
   | ORst sid code =>
     match find_active sid (k_streams c) with
     | None => (c, [])
@@ -386,9 +403,19 @@ Definition decode_op (w : word) : option op :=
   | [6] => Some OPing
   | [7; id; code] => if (0 <=? id) && (id <? 2147483648) && (0 <=? code) && (code <=? max_u32) then Some (OGoAway id code) else None
   | [8; sid; inc] => if in_sid sid && (0 <=? inc) && (inc <? 2147483648) then Some (OWinUpd sid inc) else None
-  | [9; v] => if (0 <=? v) && (v <=? 8) then Some OConnErr else None
+  | [9; v] => if (0 <=? v) && (v <=? 9) then Some OConnErr else None
   | [10; sid] => if in_sid sid then Some (OCancel sid) else None
   | [12; ms] => if (1 <=? ms) && (ms <=? 3600000) then Some (OSleep ms) else None
+  | [13; sid; dlen; plen; e] =>
+    if in_sid sid && (0 <=? dlen) && (0 <=? plen) && (plen <=? 255) && (1 + dlen + plen <=? 16384) && ((e =? 0) || (e =? 1))
+    then Some (OPadData sid dlen plen (e =? 1)) else None
+  | [14; id; val] =>
+    (* driver protocol: MAX_CONCURRENT_STREAMS stays >= 100 (NewStream would block below the
+       number of open streams), MAX_HEADER_LIST_SIZE >= 16384 (NewStream would fail) *)
+    if (0 <=? id) && (id <=? 65535) && (0 <=? val) && (val <=? max_u32) &&
+       (negb (id =? 3) || (100 <=? val)) && (negb (id =? 6) || (16384 <=? val))
+    then Some (OSettings id val) else None
+  | [15] => Some (OSettings 0 0)        (* SETTINGS ack *)
   | _ => None
   end.
 Fixpoint decode_ops (ws : list word) : option (list op) :=
@@ -429,7 +456,8 @@ Definition term_count (sid : Z) (es : list ev4) : Z :=
    2 at the end (after Close) every stream that was created has exactly one terminal status
    3 a terminal status is only reported for a stream that was created
    4 the status of a stream terminated by the op RST_STREAM(code) is http2ErrConvTab[code]
-     (Canceled may become DeadlineExceeded), REFUSED_STREAM marks it unprocessed *)
+     (Canceled may become DeadlineExceeded), REFUSED_STREAM marks it unprocessed
+   5 no goroutine of the transport outlives Close (the driver's monitor event 77 never occurs) *)
 Definition rst_event_ok (sid code : Z) (e : ev4) : bool :=
   negb ((tag e =? 1) && (esid e =? sid)) ||
   (((ecode e =? rst_code code) || ((rst_code code =? C_CANCELED) && (ecode e =? C_DEADLINE))) &&
@@ -452,7 +480,8 @@ Definition clauses_ev (ops : list word) (obs : list (list ev4)) : list (Z * Z * 
     (1, 0, forallb (fun e => negb (tag e =? 99)) es &&
            forallb (fun e => negb (tag e =? 1) || (term_count (esid e) es =? 1)) es);
     (2, 0, forallb (fun sid => term_count sid es =? 1) cr);
-    (3, 0, forallb (fun e => negb (tag e =? 1) || existsb (Z.eqb (esid e)) cr) es) ]
+    (3, 0, forallb (fun e => negb (tag e =? 1) || existsb (Z.eqb (esid e)) cr) es);
+    (5, 0, forallb (fun e => negb (tag e =? 77)) es) ]
   ++ clauses_rst ops obs.
 
 Definition clauses (cfg : word) (ops obs : list word) : list (Z * Z * bool) :=
